@@ -3,6 +3,8 @@
 // direct-oracle verdicts (`orc <id> ok` / `orc <id> FAIL <why>`).
 mod c04;
 mod c06;
+mod dedup;
+mod sess;
 mod shard;
 mod xorb;
 
@@ -40,6 +42,8 @@ fn main() {
             "c10c" => shard::run_c10c(&toks[1..]),
             "c18" => shard::run_c18(&toks[1..]),
             "c18m" => shard::run_c18m(&toks[1..]),
+            "dd" => dedup::run(&toks[1..]),
+            "sess" => sess::run(&toks[1..]),
             "c07" => xorb::run_c07(&toks[1..]),
             "c07prep" => xorb::prep_c07(&toks[1..]),
             "bg4" => xorb::run_bg4(&toks[1..]),
